@@ -247,22 +247,30 @@ Proof.
   destruct (H []); [|discriminate]. destruct (H [0%N]); [reflexivity|discriminate].
 Qed.
 
+(* Verify accepts only when the given root IS the hash recomputed from (index, total, leaf
+   hash, aunts) — whatever byte string is passed as the root (an empty "root" included) *)
+Theorem verify_recomputes root_hash leaf p :
+  verify H root_hash leaf p = true ->
+  pf_leaf_hash p = leaf_hash leaf /\
+  Model.from_aunts H (pf_index p) (pf_total p) (leaf_hash leaf) (rev (pf_aunts p)) = Some root_hash.
+Proof.
+  intro V. unfold verify in V.
+  destruct (pf_total p <? 0) eqn:T0; [discriminate|].
+  destruct (pf_index p <? 0) eqn:I0; [discriminate|].
+  destruct (bytes_eqb (pf_leaf_hash p) (leaf_hash leaf)) eqn:L; [|discriminate]. cbn in V.
+  apply bytes_eqb_eq in L. split; [exact L|]. rewrite <- L.
+  destruct (Model.from_aunts H (pf_index p) (pf_total p) (pf_leaf_hash p) (rev (pf_aunts p))) as [h|]; [|discriminate].
+  apply bytes_eqb_eq in V. subst h. reflexivity.
+Qed.
+
 Theorem proof_binds items leaf p :
   pf_total p = Z.of_nat (length items) ->
   verify H (root items) leaf p = true ->
   (0 <= pf_index p < pf_total p /\ nth_error items (Z.to_nat (pf_index p)) = Some leaf)
   \/ Collision H.
 Proof.
-  intros Ht V. unfold verify in V.
-  destruct (pf_total p <? 0) eqn:T0; [discriminate|].
-  destruct (pf_index p <? 0) eqn:I0; [discriminate|].
-  destruct (bytes_eqb (pf_leaf_hash p) (leaf_hash leaf)) eqn:L; [|discriminate]. cbn in V.
-  apply bytes_eqb_eq in L. apply bytes_eqb_eq in V.
-  unfold compute_root in V. rewrite L, Ht in V.
-  destruct (Model.from_aunts H (pf_index p) (Z.of_nat (length items)) (leaf_hash leaf) (rev (pf_aunts p))) as [h|] eqn:E.
-  - rewrite Ht. eapply binds_core; eassumption.
-  - right. apply hlen_zero_collision.
-    rewrite <- (root_length items), <- V. reflexivity.
+  intros Ht V. destruct (verify_recomputes _ _ _ V) as [L E]. rewrite Ht in E.
+  rewrite Ht. exact (binds_core _ items (pf_index p) leaf (root items) E eq_refl).
 Qed.
 
 (* ---------------------------------------------------------------- completeness *)
@@ -353,7 +361,7 @@ Theorem proof_complete items i :
   (i < length items)%nat ->
   verify H (root items) (nth i items []) (proof_of H items i) = true.
 Proof.
-  intro Hi. unfold verify, proof_of, compute_root. cbn [Model.pf_total Model.pf_index Model.pf_leaf_hash Model.pf_aunts].
+  intro Hi. unfold verify, proof_of. cbn [Model.pf_total Model.pf_index Model.pf_leaf_hash Model.pf_aunts].
   replace (Z.of_nat (length items) <? 0) with false by (symmetry; apply Z.ltb_ge; lia).
   replace (Z.of_nat i <? 0) with false by (symmetry; apply Z.ltb_ge; lia).
   rewrite bytes_eqb_refl. cbn [negb].
